@@ -548,3 +548,132 @@ def _(m, callee, args):
             out.extend(sep)
         out.extend(deref_all(m, it).cs)
     return RStr(out)
+
+
+# ------------------------------------------------------------------ Option / Result with possibly symbolic discriminants
+def disc_is(m, e, k):
+    """decide (forking when symbolic) whether enum value e has discriminant k"""
+    e = deref_all(m, e)
+    d = e.disc if isinstance(e, Enum) else e.discriminant(None)
+    if is_sym(d):
+        return m.ctx.decide(d == z3.BitVecVal(k, d.size()))
+    return d == k
+
+
+def _prepend(pat, fn):
+    MODELS.insert(0, (re.compile(pat), fn))
+
+
+def _opt_or(m, callee, args):
+    return args[0] if disc_is(m, args[0], 1) else args[1]
+_prepend(r'^Option::<.*>::or$', _opt_or)
+
+
+def _opt_is_some(m, callee, args):
+    return disc_is(m, args[0], 1)
+_prepend(r'^Option::<.*>::is_some$', _opt_is_some)
+
+
+def _opt_is_none(m, callee, args):
+    return disc_is(m, args[0], 0)
+_prepend(r'^Option::<.*>::is_none$', _opt_is_none)
+
+
+def _opt_unwrap(m, callee, args):
+    if disc_is(m, args[0], 0):
+        raise Panic('called `Option::unwrap()` on a `None` value')
+    return args[0].fields[0]
+_prepend(r'^Option::<.*>::unwrap$', _opt_unwrap)
+
+
+def _opt_expect(m, callee, args):
+    if disc_is(m, args[0], 0):
+        raise Panic('expect: ' + ''.join(chr(c) if isinstance(c, int) else '?' for c in deref_all(m, args[1]).cs))
+    return args[0].fields[0]
+_prepend(r'^Option::<.*>::expect$', _opt_expect)
+
+
+def _res_expect(m, callee, args):
+    if disc_is(m, args[0], 1):
+        raise Panic('expect: ' + ''.join(chr(c) if isinstance(c, int) else '?' for c in deref_all(m, args[1]).cs))
+    return args[0].fields[0]
+_prepend(r'^Result::<.*>::expect$', _res_expect)
+
+
+def _res_unwrap(m, callee, args):
+    if disc_is(m, args[0], 1):
+        raise Panic('called `Result::unwrap()` on an `Err` value')
+    return args[0].fields[0]
+_prepend(r'^Result::<.*>::unwrap$', _res_unwrap)
+
+
+@model(r'^Option::<.*>::as_ref$|^Option::<.*>::as_deref$|^Option::<.*>::as_mut$')
+def _(m, callee, args):
+    o = deref_all(m, args[0])
+    if isinstance(o, Enum):
+        return Enum(o.disc, [ValRef(f) if not isinstance(f, (Ref, ValRef)) else f for f in o.fields], o.name)
+    return o
+
+
+@model(r'^Option::<.*>::unwrap_or_else::<')
+def _(m, callee, args):
+    if disc_is(m, args[0], 1):
+        return args[0].fields[0]
+    return m.call_closure(args[1], [])
+
+
+@model(r'^Option::<.*>::map::<')
+def _(m, callee, args):
+    if disc_is(m, args[0], 1):
+        return some(m.call_closure(args[1], [args[0].fields[0]]))
+    return NONE()
+
+
+@model(r'^Option::<.*>::and_then::<')
+def _(m, callee, args):
+    if disc_is(m, args[0], 1):
+        return m.call_closure(args[1], [args[0].fields[0]])
+    return NONE()
+
+
+@model(r'^Option::<.*>::ok_or_else::<')
+def _(m, callee, args):
+    if disc_is(m, args[0], 1):
+        return OK(args[0].fields[0])
+    return ERR(m.call_closure(args[1], []))
+
+
+@model(r'^Option::<.*>::unwrap_or::<|^Option::<.*>::unwrap_or$')
+def _(m, callee, args):
+    return args[0].fields[0] if disc_is(m, args[0], 1) else args[1]
+
+
+@model(r'^Option::<.*>::map_or::<')
+def _(m, callee, args):
+    if disc_is(m, args[0], 1):
+        return m.call_closure(args[2], [args[0].fields[0]])
+    return args[1]
+
+
+@model(r'^Result::<.*>::map_err::<')
+def _(m, callee, args):
+    if disc_is(m, args[0], 0):
+        return args[0]
+    return ERR(m.call_closure(args[1], [args[0].fields[0]]))
+
+
+@model(r'^Result::<.*>::map::<')
+def _(m, callee, args):
+    if disc_is(m, args[0], 0):
+        return OK(m.call_closure(args[1], [args[0].fields[0]]))
+    return args[0]
+
+
+@model(r'^Result::<.*>::err$')
+def _(m, callee, args):
+    return some(args[0].fields[0]) if disc_is(m, args[0], 1) else NONE()
+
+
+@model(r'^Result::<.*>::ok$')
+def _(m, callee, args):
+    return some(args[0].fields[0]) if disc_is(m, args[0], 0) else NONE()
